@@ -226,6 +226,8 @@ func (h *ValueReader) ReadObject(data []byte) (val map[string]interface{}, p int
 	h.objVal = make(map[string]interface{}, mapSize)
 	p, err = HandleObjectValues(data[p:], h, &h.buf)
 	if err != nil {
+		// the size hint follows what was actually read, also when the read fails
+		h.lastMapSize = len(h.objVal)
 		return nil, p, err
 	}
 	valLen := len(h.objVal)
@@ -234,6 +236,7 @@ func (h *ValueReader) ReadObject(data []byte) (val map[string]interface{}, p int
 	if valLen == 0 {
 		tknType, _, tknErr := NextTokenType(data)
 		if tknErr == nil && tknType == NullType {
+			h.lastMapSize = 0
 			return nil, p, errInvalidObject
 		}
 	}
@@ -282,6 +285,8 @@ func (h *ValueReader) ReadArray(data []byte) (val []interface{}, p int, err erro
 	h.arrVal = make([]interface{}, 0, sliceSize)
 	p, err = HandleArrayValues(data, h, &h.buf)
 	if err != nil {
+		// the size hint follows what was actually read, also when the read fails
+		h.lastSliceSize = len(h.arrVal)
 		return nil, p, err
 	}
 
@@ -291,6 +296,7 @@ func (h *ValueReader) ReadArray(data []byte) (val []interface{}, p int, err erro
 	if valLen == 0 {
 		tknType, _, tknErr := NextTokenType(data)
 		if tknErr == nil && tknType == NullType {
+			h.lastSliceSize = 0
 			return nil, p, errInvalidArray
 		}
 	}
